@@ -128,6 +128,18 @@ def wl_util(spec, ctx, mods):
                 if r.random() < 0.1:
                     yi = yi.copy()
                     yi[-1, 1] += 1 / Q  # unaligned: must raise
+                elif r.random() < 0.2:
+                    # integer-typed first annotation (whole seconds) against a
+                    # float one with fractional boundaries
+                    tot = r.randrange(2, 12)
+                    cuts = sorted(r.sample(range(1, tot), min(tot - 1, r.randrange(0, 4))))
+                    bx = [0] + cuts + [tot]
+                    xi = np.array([[a, b_] for a, b_ in zip(bx[:-1], bx[1:])],
+                                  dtype=r.choice([np.int64, np.int32, np.float32]))
+                    xl = gen.labels(r, len(xi))
+                    yi, yl = gen.segmentation(r, start=0, total=tot * 64)
+                    if r.random() < 0.5:
+                        xi, xl, yi, yl = yi, yl, xi, xl
                 u.merge_labeled_intervals(xi, xl, yi, yl)
             elif op == "interp":
                 iv = gappy_intervals(r)
@@ -152,12 +164,18 @@ def wl_util(spec, ctx, mods):
                 # the boundary extraction alone is also observed on gapped input
                 u.intervals_to_boundaries(gen.gapped_intervals(r))
                 iv, _ = gen.segmentation(r, start=r.choice([0, 0, 7, 64]))
+                if r.random() < 0.25 and len(iv) >= 2:
+                    # two distinct float values that agree to 5 decimals at one
+                    # shared boundary (e.g. an end computed as 0.1 + 0.2)
+                    k = r.randrange(0, len(iv) - 1)
+                    iv = iv.copy()
+                    iv[k + 1, 0] = iv[k, 1] + r.choice([1e-7, 4e-16, 3e-9, 2e-6])
                 b = u.intervals_to_boundaries(iv)
                 back = u.boundaries_to_intervals(b)
                 ctx.ev()
                 ctx.count("roundtrip")
                 if np.asarray(back).shape != iv.shape or \
-                        np.max(np.abs(np.asarray(back) - iv)) > 1e-5:
+                        np.max(np.abs(np.asarray(back) - iv)) > 1.1e-5:
                     ctx.violation("C13/util.boundaries_to_intervals/roundtrip",
                                   "roundtrip", "util.boundaries_to_intervals",
                                   "boundaries_to_intervals(intervals_to_boundaries(x))"
